@@ -314,6 +314,14 @@ impl Model<'_> {
                         // the projection primitive is trusted for *which* triangle is hit
                         match rm.project_with_max_dist(&pp, *dist) {
                             Some((prj, ri, _)) => {
+                                // a reference triangle without a usable normal (parry: cross
+                                // product below f64::EPSILON; here: thinner than 1e-9 of its
+                                // edges) is outside what the documented criterion defines
+                                let rt = rmm.tri(ri as usize);
+                                let (e1, e2) = (sub(rt[1], rt[0]), sub(rt[2], rt[0]));
+                                if norm(cross(e1, e2)) <= 1e-9 * norm(e1) * norm(e2) {
+                                    return Tri::Unknown;
+                                }
                                 let rn = match rmm.normal(ri as usize) {
                                     Some(rn) => rn,
                                     None => return Tri::Unknown,
@@ -425,15 +433,55 @@ impl Property for C14 {
             let pose = Pose::random(rng, 5.0);
             mesh = pose.apply_mesh(&mesh);
         }
-        if rng.chance(0.5) {
+        let mut label = label;
+        // vertices no face refers to are legal; after renumbering they sit anywhere in the buffer
+        let mut extra = 0;
+        if rng.chance(0.3) {
+            let (mut lo, mut hi) = ([f64::INFINITY; 3], [f64::NEG_INFINITY; 3]);
+            for p in &mesh.v {
+                for k in 0..3 {
+                    lo[k] = lo[k].min(p[k]);
+                    hi[k] = hi[k].max(p[k]);
+                }
+            }
+            extra = 1 + rng.below(4);
+            for _ in 0..extra {
+                mesh.v.push([rng.uniform(lo[0], hi[0]), rng.uniform(lo[1], hi[1]), rng.uniform(lo[2], hi[2])]);
+            }
+            label.push_str("+unreferenced-vertices");
+        }
+        if rng.chance(0.5) || extra > 0 {
             renumber_vertices(rng, &mut mesh);
             shuffle_faces(rng, &mut mesh);
+        }
+        // the length unit is arbitrary
+        if rng.chance(0.3) {
+            let s = rng.log_uniform(1e-5, 1e4);
+            for p in mesh.v.iter_mut() {
+                *p = scale(*p, s);
+            }
+            label.push_str("+scaled");
         }
         let nrefs = 1 + rng.below(2);
         let mut refs = Vec::new();
         while refs.len() < nrefs {
-            let r = gen_reference(rng, &mesh);
+            let mut r = gen_reference(rng, &mesh);
             if nondegenerate(&r) {
+                // sometimes the reference carries a zero-area sliver right next to a vertex of the
+                // subject mesh (tessellator output): the closest feature for that vertex then has no
+                // normal, and what the criterion says there must still not depend on other faces
+                if rng.chance(0.25) {
+                    let p = *rng.pick(&mesh.v);
+                    let s = mesh.size();
+                    let d = unit([rng.normal(), rng.normal(), rng.normal() + 1e-3]);
+                    let o = add(p, scale(unit([rng.normal(), rng.normal(), rng.normal() + 1e-3]), rng.uniform(0.0, 0.01) * s));
+                    let b = r.v.len() as u32;
+                    r.v.push(add(o, scale(d, -0.02 * s)));
+                    r.v.push(o);
+                    r.v.push(add(o, scale(d, 0.03 * s)));
+                    r.f.push([b, b + 1, b + 2]);
+                    label.push_str("+sliver-in-reference");
+                }
                 refs.push(r);
             }
         }
